@@ -704,6 +704,8 @@ def compute_online_moments_basic(
 @njit(cache=True, fastmath=True)
 def add_online_moments(a: np.ndarray, b: np.ndarray, c: np.ndarray) -> None:
     c["count"][:] = a["count"] + b["count"]
+    # Powers of the total count in floating point: count ** 3 wraps int64 at 2**21
+    ncount = c["count"].astype(np.float64)
     delta = b["m1"] - a["m1"]
     delta2 = delta * delta
     delta3 = delta * delta2
@@ -718,7 +720,7 @@ def add_online_moments(a: np.ndarray, b: np.ndarray, c: np.ndarray) -> None:
         * a["count"]
         * b["count"]
         * (a["count"] - b["count"])
-        / (c["count"] ** 2)
+        / (ncount**2)
     )
     c["m3"][:] += 3 * delta * (a["count"] * b["m2"] - b["count"] * a["m2"]) / c["count"]
     c["m4"][:] = (
@@ -728,13 +730,13 @@ def add_online_moments(a: np.ndarray, b: np.ndarray, c: np.ndarray) -> None:
         * a["count"]
         * b["count"]
         * (a["count"] ** 2 - a["count"] * b["count"] + b["count"] ** 2)
-        / (c["count"] ** 3)
+        / (ncount**3)
     )
     c["m4"][:] += (
         6
         * delta2
         * (a["count"] ** 2 * b["m2"] + b["count"] ** 2 * a["m2"])
-        / (c["count"] ** 2)
+        / (ncount**2)
     )
     c["m4"][:] += 4 * delta * (a["count"] * b["m3"] - b["count"] * a["m3"]) / c["count"]
     c["max"][:] = np.maximum(a["max"], b["max"])
